@@ -291,6 +291,8 @@ pub struct World {
     pub sim_procs: HashMap<i32, usize>,
     pub children_spawned: u64,
     pub children_reaped: u64,
+    /// (last argument, raw wait status) of every simulated process that has exited
+    pub proc_exits: Vec<(String, i32)>,
 }
 
 impl World {
@@ -333,6 +335,7 @@ impl World {
             sim_procs: HashMap::new(),
             children_spawned: 0,
             children_reaped: 0,
+            proc_exits: vec![],
         }
     }
 
@@ -1152,6 +1155,10 @@ pub fn proc_reaped(gen_id: u64) {
             w.children_reaped += 1;
         }
     }
+}
+
+pub fn proc_exited(tag: String, raw: i32) {
+    with(|w| w.proc_exits.push((tag, raw)));
 }
 
 pub fn current_gen() -> u64 {
